@@ -2,6 +2,7 @@
 CONTRACT_MODULES = ['contracts.encoding', 'contracts.scripts']
 CONTRACTS = [
     'bitcoinlib.encoding.int_to_varbyteint',
+    'bitcoinlib.encoding.int_to_varbyteint[out-of-range]',
     'bitcoinlib.encoding.varbyteint_to_int',
     'bitcoinlib.encoding.varbyteint_to_int[form-fd]',
     'bitcoinlib.encoding.varbyteint_to_int[form-fe]',
